@@ -77,7 +77,8 @@ func (c *refineCheck) Gen(seed uint64, tier string) (*Scenario, error) {
 	if rng.Intn(2) == 0 {
 		// restarts at interesting heights: activations, snapshots, random
 		cands := []uint32{}
-		for _, h := range w.Spec.Config.Act {
+		for _, name := range world.ActNames { // fixed order: the plan must be a function of the seed alone
+			h := w.Spec.Config.Act[name]
 			cands = append(cands, h-1, h)
 		}
 		for h := w.Spec.First; h <= w.Tip(); h++ {
